@@ -1072,6 +1072,8 @@ impl<'a, T: 'a + IO> Interpreter<'a, T> {
 
     fn interpret_func_call_expr(&mut self, f: parser::FunctionCall) -> Result<DataType, PakhiErr> {
         let env_count_before_fn_call = self.scopes.len();
+        let loop_count_before_fn_call = self.loops.len();
+        let if_count_before_fn_call = self.previous_if_was_executed.len();
 
         match *f.expr.clone() {
             parser::Expr::Primary(parser::Primary::Var(func_token), _, _) => {
@@ -1154,6 +1156,11 @@ impl<'a, T: 'a + IO> Interpreter<'a, T> {
                 // so half used env must be destroyed manually
                 self.scopes.pop();
             }
+            // return can also happen inside loop or if block of function, loops and
+            // if conditions which were not finished belong to this call and must not
+            // be visible to caller
+            self.loops.truncate(loop_count_before_fn_call);
+            self.previous_if_was_executed.truncate(if_count_before_fn_call);
 
             return return_val;
         }
